@@ -420,27 +420,41 @@ def _exec(n, st: tuple, fr, k: int) -> Iterator[tuple]:
         raise TypeError(n)
 
 
-def canon(st: tuple):
-    """Canonical key of a job: multiset of recursive predecessor signatures."""
+def canon(st: tuple, intern=None):
+    """Canonical key of a job: multiset of recursive predecessor signatures.
+    Signatures are interned to small integers (`intern`, shared between the
+    jobs that are to be compared) so that the key stays linear in the job
+    size even when joins nest (a plain nested tuple unfolds the DAG into a
+    tree and grows exponentially)."""
+    if intern is None:
+        intern = {}
     sig = {}
 
     def s(i):
         if i not in sig:
             t, prev = st[i]
-            sig[i] = (t, tuple(sorted(s(p) for p in prev)))
+            raw = (t, tuple(sorted(s(p) for p in prev)))
+            sig[i] = intern.setdefault(raw, len(intern))
         return sig[i]
     return tuple(sorted(s(i) for i in range(len(st))))
 
 
 def enumerate_jobs(ast: Seq, k: int = 2,
-                   limit: Optional[int] = None) -> Iterator[tuple]:
-    """All maximal executions, each loop instance run 1..k times."""
+                   limit: Optional[int] = None,
+                   raw_limit: Optional[int] = None) -> Iterator[tuple]:
+    """All maximal executions, each loop instance run 1..k times.
+    raw_limit bounds the executions looked at (duplicates included)."""
     c = 0
+    raw = 0
     seen = set()
+    intern = {}
     for st, fr, br in _exec(ast, (), frozenset(), k):
+        raw += 1
+        if raw_limit and raw > raw_limit:
+            return
         if not st:
             continue
-        key = canon(st)
+        key = canon(st, intern)
         if key in seen:
             continue
         seen.add(key)
